@@ -317,6 +317,12 @@ func exclusionMain(args []string) {
 			goPats = append(goPats, p.goSyntax())
 			tokPats = append(tokPats, p.tokens())
 		}
+		// blank patterns are to be ignored wherever they stand in the list (the model never sees them)
+		if len(goPats) > 0 && rnd.Chance(30) {
+			pos := rnd.Intn(len(goPats) + 1)
+			blank := hx.Pick(rnd, []string{"", "  "})
+			goPats = append(goPats[:pos], append([]string{blank}, goPats[pos:]...)...)
+		}
 		var rels []string
 		for _, en := range c.ents {
 			rels = append(rels, en.rel)
@@ -389,7 +395,21 @@ func exclusionMain(args []string) {
 						continue
 					}
 					if strings.Contains(f, "F") && pset[e] {
-						rep.Fail(hx.Failure{Kind: "impl-violates-property", Key: "excluded-entry-processed:" + op, Case: caseTxt,
+						// classification only: is the component matched in full the first one below the root?
+						level := ":below-first-level"
+						first := strings.SplitN(e, "/", 2)[0]
+						for _, gp := range goPats {
+							if strings.TrimSpace(gp) == "" {
+								continue
+							}
+							if re, cerr := regexp.Compile("^(?:" + gp + ")$"); cerr == nil && re.MatchString(first) {
+								level = ":first-level"
+							}
+						}
+						if op != "remove" && op != "clean" {
+							level = ""
+						}
+						rep.Fail(hx.Failure{Kind: "impl-violates-property", Key: "excluded-entry-processed:" + op + level, Case: caseTxt,
 							Expected: e + " (a component is matched in full by a pattern) is not processed", Observed: "processed: " + strings.Join(processed, ",")})
 					}
 					if !strings.Contains(f, "C") && !pset[e] {
